@@ -346,6 +346,29 @@ def worldCmd (cmd : String) (w : World) (wf : List WT) (args : List String) : St
      | _, .error e => "err " ++ e.name)
   | _, _ => "bad-op"
 
+/-! ### configuration -/
+
+def showCfg : CfgVal → String
+  | .int i => "i" ++ toString i
+  | .bool b => if b then "b1" else "b0"
+  | .str s => "s" ++ toh s
+  | .none => "N"
+
+def showCfgOpt : Option CfgVal → String
+  | some v => showCfg v
+  | none => "-"
+
+def confOps (c : Conf.Config) : List String → List String → String
+  | [], acc => ";".intercalate acc.reverse
+  | op :: rest, acc =>
+    match op.splitOn ":" with
+    | ["s", k, v] => confOps (c.set (unh k) (unh v)) rest ("ok" :: acc)
+    | ["u", k] => confOps (c.unset (unh k)) rest ("ok" :: acc)
+    | ["g", k] => confOps c rest (showCfgOpt (c.get? (unh k)) :: acc)
+    | ["n", ns] => confOps c rest (",".intercalate (sortStrs ((c.namespace (unh ns)).map (fun p => toh p.1 ++ "=" ++ showCfg p.2))) :: acc)
+    | ["r"] => confOps c.reload rest ("ok" :: acc)
+    | _ => confOps c rest ("bad" :: acc)
+
 def dispatch (toks : List String) : String :=
   match toks with
   | ["ping"] => "pong"
@@ -442,6 +465,10 @@ def dispatch (toks : List String) : String :=
           if fails.isEmpty then "ok" else "fail " ++ ",".intercalate fails
         | none => "bad-op")
      | _ => "bad-op")
+  | ["prec", flag, conf, dflt] =>
+    Conf.effective (if flag == "-" then none else some flag) (if conf == "-" then none else some conf) dflt
+  | ["conf.tryconv", v] => showCfg (Conf.tryConv (unh v))
+  | "conf.ops" :: ops => confOps {} ops []
   | "glob" :: pat :: name :: [] => showBool (Glob.globMatch (unh pat) (unh name))
   | "world" :: cmd :: rest =>
     (match parseWorldWf rest with
